@@ -70,6 +70,7 @@ def _np():
     m.inf = math.inf
     m.zeros = lambda n: xnp.Arr([0] * int(n), 'float')
     m.where = xnp.where
+    m.count_nonzero = xnp.count_nonzero
     m.divide = lambda a, b: (a / b) if b else math.inf
     m.log = lambda x: math.log(x) if x != math.inf else math.inf
     m.ceil = lambda x: x if x in (math.inf, -math.inf) else float(math.ceil(x))
